@@ -88,32 +88,58 @@ Definition old_client_wire (chunks : list (list N)) : list N := old_send false c
 
 (** ---- server ---- *)
 Inductive sev :=
-| MsgLine (l : list N)     (* IMessage.lineReceived(l) *)
+| MsgLine (l : list N)     (* IMessage.lineReceived(l) returned *)
 | Eom                      (* IMessage.eomReceived() *)
-| CmdLine (l : list N).    (* the line was handed to state_COMMAND *)
+| CmdLine (l : list N)     (* the line was handed to state_COMMAND *)
+| MsgRefuse (l : list N)   (* IMessage.lineReceived(l) raised SMTPServerError *)
+| MsgLost                  (* IMessage.connectionLost() *)
+| Reply (code : N).        (* the reply the server writes while the DATA bytes arrive *)
 
+(** the message object's behaviour: [refuse] = Some k: its k-th lineReceived call (counting from 0)
+    raises SMTPServerError(552); [eomfail]: the Deferred returned by eomReceived fails *)
 Record sst := mk { cur : list N;        (* LineOnlyReceiver._buffer, reversed *)
                    in_data : bool;      (* mode is DATA *)
-                   inheader : bool; inbody : bool }.
+                   inheader : bool; inbody : bool;
+                   failed : bool;       (* self.datafailed is set *)
+                   calls : nat;         (* lineReceived calls made so far *)
+                   refuse : option nat; eomfail : bool }.
 
 Definition has_colon (l : list N) : bool := existsb (N.eqb COLON) l.
 Definition nonempty (l : list N) : bool := match l with [] => false | _ => true end.
 
+(** a run of message.lineReceived calls, stopped by the first one that raises: calls made, whether one
+    raised, events *)
+Fixpoint do_calls (rf : option nat) (n : nat) (ls : list (list N)) : nat * bool * list sev :=
+  match ls with
+  | [] => (n, false, [])
+  | l :: r =>
+      if match rf with Some k => Nat.eqb k n | None => false end
+      then (n, true, [MsgRefuse l; MsgLost])
+      else let '(n', f, e) := do_calls rf (S n) r in (n', f, MsgLine l :: e)
+  end.
+
 (** the part of dataLineReceived after un-stuffing *)
 Definition deliver (st : sst) (line : list N) : sst * list sev :=
-  let fresh := negb (inheader st) && negb (inbody st) in
-  let ih := if fresh && has_colon line then true else inheader st in
-  let blank := fresh && negb (has_colon line) && nonempty line in
-  let ib := if blank then true else inbody st in
-  let ib' := if nonempty line then ib else true in
-  (mk [] true ih ib', (if blank then [MsgLine []] else []) ++ [MsgLine line]).
+  if failed st then (mk [] true (inheader st) (inbody st) true (calls st) (refuse st) (eomfail st), [])
+  else
+    let fresh := negb (inheader st) && negb (inbody st) in
+    let ih := if fresh && has_colon line then true else inheader st in
+    let blank := fresh && negb (has_colon line) && nonempty line in
+    let ib := if blank then true else inbody st in
+    let ib' := if nonempty line then ib else true in
+    let '(n', f, e) := do_calls (refuse st) (calls st) ((if blank then [[]] else []) ++ [line]) in
+    (mk [] true ih ib' f n' (refuse st) (eomfail st), e).
+
+Definition end_of_data (st : sst) : sst * list sev :=
+  (mk [] false (inheader st) (inbody st) (failed st) (calls st) (refuse st) (eomfail st),
+   if failed st then [Reply 552] else [Eom; Reply (if eomfail st then 550 else 250)]).
 
 Definition data_line (st : sst) (line : list N) : sst * list sev :=
   match line with
   | d :: rest =>
       if d =? DOT then
         match rest with
-        | [] => (mk [] false (inheader st) (inbody st), [Eom])
+        | [] => end_of_data st
         | _ => deliver st rest
         end
       else deliver st line
@@ -122,16 +148,18 @@ Definition data_line (st : sst) (line : list N) : sst * list sev :=
 
 Definition handle_line (st : sst) (line : list N) : sst * list sev :=
   if in_data st then data_line st line
-  else (mk [] false (inheader st) (inbody st), [CmdLine line]).
+  else (mk [] false (inheader st) (inbody st) (failed st) (calls st) (refuse st) (eomfail st), [CmdLine line]).
+
+Definition set_cur (st : sst) (c : list N) : sst :=
+  mk c (in_data st) (inheader st) (inbody st) (failed st) (calls st) (refuse st) (eomfail st).
 
 Definition sstep (st : sst) (b : N) : sst * list sev :=
   if b =? LF then
     match cur st with
-    | c :: rest => if c =? CR then handle_line st (rev rest)
-                   else (mk (b :: cur st) (in_data st) (inheader st) (inbody st), [])
-    | [] => (mk (b :: cur st) (in_data st) (inheader st) (inbody st), [])
+    | c :: rest => if c =? CR then handle_line st (rev rest) else (set_cur st (b :: cur st), [])
+    | [] => (set_cur st (b :: cur st), [])
     end
-  else (mk (b :: cur st) (in_data st) (inheader st) (inbody st), []).
+  else (set_cur st (b :: cur st), []).
 
 Fixpoint srun (st : sst) (bs : list N) : sst * list sev :=
   match bs with
@@ -146,8 +174,10 @@ Fixpoint srun_chunks (st : sst) (cs : list (list N)) : sst * list sev :=
   | c :: r => let '(s1, e1) := srun st c in let '(s2, e2) := srun_chunks s1 r in (s2, e1 ++ e2)
   end.
 
-(** the server right after it answered 354 to DATA *)
-Definition data_start : sst := mk [] true false false.
+(** the server right after it answered 354 to DATA, for a message object with the given behaviour;
+    [data_start] = a message object that accepts everything *)
+Definition data_start_with (rf : option nat) (ef : bool) : sst := mk [] true false false false 0 rf ef.
+Definition data_start : sst := data_start_with None false.
 
 (** ---- vocabulary of the theorems ---- *)
 Definition line_ok (l : list N) : Prop := Forall (fun b => b <> LF /\ b <> CR) l.
@@ -163,6 +193,15 @@ Definition header_view (lines : list (list N)) : list (list N) :=
   end.
 
 Definition is_msgline (e : sev) : bool := match e with MsgLine _ => true | _ => false end.
+(** events that stay inside the message transfer (no end of message, no reply, no command) *)
+Definition is_body_ev (e : sev) : bool :=
+  match e with MsgLine _ | MsgRefuse _ | MsgLost => true | _ => false end.
+
+(** what the whole transfer must produce for a message object with behaviour (rf, ef), given the
+    lineReceived arguments in order: the calls up to the refusal (if any), then the end of the message *)
+Definition outcome (rf : option nat) (ef : bool) (args : list (list N)) : list sev :=
+  let '(_, f, e) := do_calls rf 0 args in
+  e ++ (if f then [Reply 552] else [Eom; Reply (if ef then 550 else 250)]).
 
 (** the reference encoding of a whole body: LF -> CR LF, a "." at the start of a line doubled *)
 Fixpoint enc (ls : bool) (s : list N) : list N :=
